@@ -18,7 +18,9 @@ CLAIMED = {
                  'functions consistent with it, and the two check-then-act sites inside one critical section.',
         'note': 'Trusted: OrderedDict insertion order; C-level snapshots (list(d.keys()), `in d.values()`) are atomic under the GIL. The linearised '
                 'behaviour of concurrent registrations is argued from the lock rule, not explored.',
-        'technique': SA + 'who-may-write census, dominance on CFGs, literal tables, lockset rule for check-then-act and iterate-while-growing sites',
+        'technique': SA + 'who-may-write census, dominance on CFGs, literal tables, lockset rule for check-then-act and iterate-while-growing sites, '
+                     'publication-order rule (derived state before the binding unless readers hold the lock), finite evaluation of the constructor, append and '
+                     'the two reader functions over small registries',
     },
     'C26': {
         'level': 'Decides the structural half of the round trip for every name and payload: the key table written by dumps equals the one read by '
